@@ -331,6 +331,17 @@ def run(prog: Program, res: Result, tier: str) -> None:
     gdict = [n for n in ast.walk(r.node) if isinstance(n, ast.Dict)
              and any(isinstance(k, ast.Constant) and k.value == "MolGraph"
                      for k in n.keys)]
+    if not gdict:
+        # the registry may live at module level and be indexed by name
+        for nm in {x.id for x in ast.walk(r.node) if isinstance(x, ast.Name)}:
+            try:
+                cand = prog.module_assign(MOD, nm)
+            except Exception:
+                continue
+            if isinstance(cand, ast.Dict) and any(
+                    isinstance(k, ast.Constant) and k.value == "MolGraph"
+                    for k in cand.keys):
+                gdict = [cand]
     gp = {k.value: norm(v) for k, v in zip(gdict[0].keys, gdict[0].values)} \
         if gdict else {}
     for c in GRAPH_CLASSES:
@@ -549,8 +560,18 @@ def run(prog: Program, res: Result, tier: str) -> None:
                     "this part of the state is not restored", instance=inst)
     # identifiers restored as ints, elements by symbol
     inst = "atoms restored as add_atom(int(atom_id), atom_type)"
-    if "graph.add_atom(int(atom_id), atom_type)" in rtxt and \
-            "SYMBOLS[a_type]" in wtxt:
+    restored = False
+    for l_ in ast.walk(r.node):
+        if isinstance(l_, ast.For) and isinstance(l_.target, ast.Tuple) and \
+                len(l_.target.elts) == 2 and "'Atoms'" in norm(l_.iter):
+            i_, t_ = (norm(e) for e in l_.target.elts)
+            if any(isinstance(c_, ast.Call) and norm(c_.func) ==
+                   "graph.add_atom" and len(c_.args) == 2
+                   and norm(c_.args[0]) == f"int({i_})"
+                   and norm(c_.args[1]) == t_ for c_ in ast.walk(l_)):
+                restored = True
+    written_symbols = re.search(r"SYMBOLS\[\w+\]", wtxt) is not None
+    if restored and written_symbols:
         res.ok("J-COVER", inst, r.loc())
     else:
         res.unrecognised("J-COVER", inst, r.loc(), "how atoms are restored")
